@@ -13,7 +13,7 @@
    obtains them from the tables it builds; [key_plausible] pins the key to the exact quotient
    within 1).  `usize` subtraction under overflow-checks: [None] = panic. *)
 From Coq Require Import ZArith List Bool.
-From FV Require Import Lib.Cases C05.Model.
+From FV Require Import Lib.Cases C05.Model C07.SharedPtsModel.
 Import ListNotations.
 Open Scope Z_scope.
 
@@ -116,7 +116,7 @@ Definition check_pcase (c : pcase) : bool :=
     end
   end.
 
-(* shards of c07 carry both kinds of case *)
-Inductive c07_case := CDag (c : case_ty) | CPromo (p : pcase).
+(* shards of c07 carry three kinds of case (CShared: coq/C07/SharedPtsModel.v, gvar shared point numbers) *)
+Inductive c07_case := CDag (c : case_ty) | CPromo (p : pcase) | CShared (s : scase).
 Definition check_case7 (c : c07_case) : bool :=
-  match c with CDag c => check_case_ids c | CPromo p => check_pcase p end.
+  match c with CDag c => check_case_ids c | CPromo p => check_pcase p | CShared s => check_scase s end.
